@@ -83,7 +83,9 @@ import NeumannModel.Parse.Exec
                                     (absent) | `<n>` (integer literal) | `x` (any other expression); rows = `-` |
                                     rows joined by `;`, row = `_` | cells joined by `,`, cell = `<col>=<int>|n`
                                     (only the columns the projection kept; strings as order-isomorphic integers;
-                                    a row's identity is its position).  Answer `rows <pos>,<pos>,…` | `rows -`
+                                    a row's identity is its position).  Answer `rows <pos>,<pos>,…` | `rows -` |
+                                    `outside` (a sort column that is missing in one row and NULL in another:
+                                    the closure of sort_rows is not an order there, Exec.consistent)
             xlist <limit> <offset> <n>   NODE LIST / EDGE LIST over an engine answer of n items: `items <pos>,…` |
                                     `items -` | `error` (a LIMIT / OFFSET that is not an integer literal)
             xtake <limit> <n>       FIND … WHERE … [LIMIT] / SHOW EMBEDDINGS [LIMIT]: `items …` | `error`
@@ -639,7 +641,7 @@ def readOrderItem (w : String) : Option Exec.OrderItem :=
 def readOrder (w : String) : Option (List Exec.OrderItem) :=
   if w = "-" then some [] else (w.splitOn ";").mapM readOrderItem
 
-def readCell (w : String) : Option (Nat × Exec.Key) :=
+def readCell (w : String) : Option (Nat × Option Int) :=
   match w.splitOn "=" with
   | [c, v] =>
     match c.toNat?, (if v = "n" then some none else v.toInt?.map some) with
@@ -663,7 +665,8 @@ def parseStep (_ : Unit) (line : String) : Unit × String :=
             readOrder order, readClause limit, readClause offset, readRows rows with
       | some a, some o, some l, some f, some rs =>
         -- aggregate selects: the harness sends the aggregate rows themselves as `rows`
-        ((), showItems "rows" ((Exec.execSelect { aggregate := a, order := o, limit := l, offset := f } rs rs).map (·.id)))
+        if !a && !Exec.consistent o rs then ((), "outside")
+        else ((), showItems "rows" ((Exec.execSelect { aggregate := a, order := o, limit := l, offset := f } rs rs).map (·.id)))
       | _, _, _, _, _ => bad
   | ["xlist", limit, offset, n] =>
       match readClause limit, readClause offset, n.toNat? with
